@@ -116,6 +116,20 @@ fn cyclic_world(rng: &mut Rng) -> HashMap<String, Dict> {
         }
         w.insert(id.to_string(), d);
     }
+    // records without an id tag, or whose id differs from the ref they are reached by
+    match rng.below(4) {
+        0 => {
+            for d in w.values_mut() {
+                d.remove("id");
+            }
+        }
+        1 => {
+            for (k, d) in w.iter_mut() {
+                d.insert("id".into(), Value::make_ref(&format!("other-{k}")));
+            }
+        }
+        _ => {}
+    }
     // sometimes a ref on the chain resolves to an EMPTY record
     if rng.chance(1, 3) {
         w.insert(ids[rng.below(5)].to_string(), Dict::new());
@@ -157,13 +171,17 @@ pub fn run(ctx: &mut Ctx) {
     let pool = value_pool();
     let _ = gen_record(&mut Rng::new(1), &pool);
     // --- parenthesis ladders --------------------------------------------------------------------
-    let ladders: [(&str, &str, &str, &str); 5] = [
+    let ladders: [(&str, &str, &str, &str); 8] = [
         ("ladder-paren", "(", "a", ")"),
         ("ladder-paren-and", "(a and ", "b", ")"),
         ("ladder-not-paren", "(not a or ", "b==1", ")"),
         // nesting interleaved with already closed sibling groups
         ("ladder-paren-sibling", "((a) and ", "b", ")"),
         ("ladder-paren-sibling2", "((a or (b)) and (c) and ", "d", " or (e))"),
+        // flat chains: no nesting at all, depth = number of operators
+        ("ladder-flat-and", "a and ", "b", ""),
+        ("ladder-flat-or", "a or ", "b", ""),
+        ("ladder-flat-mixed", "not a and b == 1 or ", "c", ""),
     ];
     for (stream, open, core, close) in ladders {
         if ctx.shard != 0 {
